@@ -43,3 +43,9 @@ def wf_randoms(n: int) -> list:
     """a workflow body that asks for n deterministic random numbers"""
     task = WF_TASK[0]
     return [task.wf.random() for _ in range(n)]
+
+
+def event_args(ctx) -> dict:
+    """argument provider for event-triggered launches: x of the occurrence's payload"""
+    payload = getattr(ctx, "payload", None) or {}
+    return {"x": payload.get("x")}
